@@ -113,98 +113,88 @@ def r_invalidate(idx, rep, rule="R-INVALIDATE", relevant_to=None, floor=4):
 
 
 def r_reaction(idx, rep, rule="R-REACTION"):
-    rep.rule(rule, "action-reaction by construction: the force part of wrench12 is the negation of wrench21's, torque21 is taken "
-                   "about body 1's centre of mass with +f, torque12 about body 2's with -f, and the (wrench12, wrench21) order is "
-                   "the same in _transform_wrenches, accumulate_wrenches and contact_forces", floor=1, unknown_ceiling=1)
-    tw = idx.func(HY + "_forces::_transform_wrenches")
-    acc = idx.func(HY + "_forces::accumulate_wrenches")
+    """Decided on what contact_forces RETURNS, by symbolic evaluation of the chain contact_forces -> accumulate_wrenches -> _transform_wrenches
+    (rules/wrenchsym.py): with F the per-triangle forces of the contact surface, r their points of application and c1, c2 the centres of mass,
+
+        wrench21 = X . hstack( sum F,  sum (r - c1) x F )        wrench12 = X . hstack( -sum F,  sum (r - c2) x (-F) )
+
+    with ONE transform X for both, returned as (intersection, wrench12, wrench21, ...).  Names, temporaries, unpacking, forwarded result tuples and the
+    split over helpers do not enter: only the terms do."""
+    from . import wrenchsym as ws
+    rep.rule(rule, "action-reaction by construction: contact_forces returns (intersection, X.hstack(-sum F, sum (r - c2) x (-F)), X.hstack(sum F, sum (r - c1) x F)) "
+                   "— force parts are mutual negations, each torque is taken about the centre of mass of the body the wrench acts on, one transform for both",
+             floor=5, unknown_ceiling=2)
     cf = idx.func(HY + "_interface::contact_forces")
-    loc = {}
-    for st in iter_stmts(tw.node.body):
-        if isinstance(st, ast.Assign) and isinstance(st.targets[0], ast.Name):
-            loc[st.targets[0].id] = st.value
-
-    def parts(name):
-        v = loc.get(name)
-        if isinstance(v, ast.Call) and call_name(v) in ("np.hstack", "np.concatenate") and v.args and isinstance(v.args[0], (ast.Tuple, ast.List)) \
-                and len(v.args[0].elts) == 2:
-            return v.args[0].elts
-        return None
-    p12, p21 = parts("wrench12"), parts("wrench21")
-    if p12 is None or p21 is None:
-        rep.unknown(rule, tw.key + "|wrench construction", tw.where, "wrench12 / wrench21 are not built as hstack((force, torque)) inside _transform_wrenches (restructured): "
-                                                                       "action-reaction by construction is not decided here")
+    ps = cf.params()
+    if len(ps) < 2:
+        raise AnalysisError("contact_forces no longer takes two bodies")
+    b1, b2 = ("param", ps[0]), ("param", ps[1])
+    ev = ws.Eval(idx, "distance3d.hydroelastic_contact")
+    rets = [r for r in ev.run(cf, [b1, b2]) if isinstance(r, tuple) and r and r[0] == "tuple"]
+    if not rets:
+        rep.unknown(rule, cf.key + "|returned wrenches", cf.where, "contact_forces does not return a tuple on any path that the evaluator follows")
         return
-    rep.check(is_neg_of(p12[0], p21[0]), rule, tw.key + "|f12 = -f21", tw.where,
-              "force parts `%s` and `%s` are not mutual negations" % (u(p12[0]), u(p21[0])))
-    rep.check("12" in u(p12[1]) and "21" in u(p21[1]), rule, tw.key + "|torque pairing", tw.where,
-              "wrench12 carries `%s`, wrench21 carries `%s`" % (u(p12[1]), u(p21[1])))
-    # torques handed to _transform_wrenches: the role is given by the PARAMETER (…_12 / …_21), the value is judged by its structure
-    # whether or not accumulate_wrenches names it (a named local must also carry the role of the parameter it is passed to)
-    ap = acc.params()
-    tcalls = [c for c in ast.walk(acc.node) if isinstance(c, ast.Call) and (call_name(c) or "").split(".")[-1] == "_transform_wrenches"]
-    if len(tcalls) != 1 or len(tcalls[0].args) != len(tw.params()):
-        raise AnalysisError("accumulate_wrenches: expected one positional call of _transform_wrenches")
-    for pname, arg in zip(tw.params(), tcalls[0].args):
-        if "torque" not in pname:
-            continue
-        role = "12" if "12" in pname else "21"
-        body, sign = (ap[2], -1) if role == "12" else (ap[1], +1)
-        v = resolved(acc.node, arg)
-        ok = False
-        why = "argument `%s` for %s is not a sum of cross products" % (u(arg)[:60], pname)
-        cr = calls(v, "cross")
-        if cr and len(cr[0].args) == 2:
-            arm, frc = cr[0].args
-            # lever arms / forces bound to temporaries first (`levers_2 = contact_coms - rigid_body2.com`) are read through
-            arm = resolved(acc.node, arm) if isinstance(arm, ast.Name) else arm
-            if isinstance(frc, ast.Name):
-                frc = resolved(acc.node, frc)
-            elif isinstance(frc, ast.UnaryOp) and isinstance(frc.op, ast.USub) and isinstance(frc.operand, ast.Name):
-                frc = ast.UnaryOp(op=ast.USub(), operand=resolved(acc.node, frc.operand))
-            arm_ok = isinstance(arm, ast.BinOp) and isinstance(arm.op, ast.Sub) and u(arm.right) == "%s.com" % body and "contact_coms" in u(arm.left)
-            neg = isinstance(frc, ast.UnaryOp) and isinstance(frc.op, ast.USub)
-            f_ok = ("contact_forces" in u(frc)) and (neg == (sign < 0))
-            ok = arm_ok and f_ok
-            why = "lever arm `%s` / force `%s`: need (contact_coms - %s.com) x (%scontact_forces)" % (u(arm), u(frc), body, "-" if sign < 0 else "")
-        rep.check(ok, rule, acc.key + "|total_torque_%s" % role, acc.where, why)
-    # order through the call chain
-    def ret_names(f):
-        rets = [s for s in iter_stmts(f.node.body) if isinstance(s, ast.Return) and isinstance(s.value, ast.Tuple)]
-        return [[u(e) for e in r.value.elts] for r in rets]
+    names = {b1: ps[0], b2: ps[1]}
+    verdict = {}
 
-    def unpack_of(f, callee):
-        for st in iter_stmts(f.node.body):
-            if isinstance(st, ast.Assign) and isinstance(st.value, ast.Call) and (call_name(st.value) or "").split(".")[-1] == callee \
-                    and isinstance(st.targets[0], ast.Tuple):
-                return [u(e) for e in st.targets[0].elts], st.value
-            # `return callee(...)`: the result tuple is forwarded unchanged, the order is the callee's
-            if isinstance(st, ast.Return) and isinstance(st.value, ast.Call) and (call_name(st.value) or "").split(".")[-1] == callee:
-                return "forwarded", st.value
-        return None, None
-    tw_ret = ret_names(tw)
-    tg, call = unpack_of(acc, "_transform_wrenches")
-    forwarded = tg == "forwarded"
-    ok = bool(tw_ret) and tg is not None and (forwarded or all(("12" in a) == ("12" in b) and ("21" in a) == ("21" in b) for a, b in zip(tw_ret[0], tg)))
-    rep.check(ok, rule, acc.key + "|unpack order of _transform_wrenches", acc.where,
-              "_transform_wrenches returns %s, accumulate_wrenches unpacks into %s" % (tw_ret, tg))
-    if call is not None:
-        an = [u(a) for a in call.args]
-        pn = tw.params()
-        # an argument that is an expression (not a role-named local) has been judged by its structure above
-        ok = len(an) == len(pn) and all((("12" in a) == ("12" in p)) and (("21" in a) == ("21" in p))
-                                        for a, p, node in zip(an[1:], pn[1:], call.args[1:]) if isinstance(node, ast.Name))
-        rep.check(ok, rule, acc.key + "|argument roles of _transform_wrenches", acc.where,
-                  "arguments %s do not line up with parameters %s" % (an, pn))
-    acc_ret = tw_ret if forwarded else ret_names(acc)
-    tg2, _ = unpack_of(cf, "accumulate_wrenches")
-    ok = bool(acc_ret) and tg2 is not None and all(("12" in a) == ("12" in b) for a, b in zip(acc_ret[0], tg2))
-    rep.check(ok, rule, cf.key + "|unpack order of accumulate_wrenches", cf.where,
-              "accumulate_wrenches returns %s, contact_forces unpacks into %s" % (acc_ret, tg2))
-    for r in ret_names(cf):
-        ok = len(r) >= 3 and "intersection" in r[0] and "12" in r[1] and "21" in r[2]
-        rep.check(ok, rule, cf.key + "|return order %s" % (r[:3],), cf.where,
-                  "contact_forces must return (intersection, wrench12, wrench21, ...), returns %s" % r)
+    def put(key, ok, msg, unknown=False):
+        st_ = "unknown" if unknown else ("ok" if ok else "bad")
+        rank = {"ok": 0, "unknown": 1, "bad": 2}
+        if key not in verdict or rank[st_] > rank[verdict[key][0]]:
+            verdict[key] = (st_, msg)
+
+    def split(w):
+        """(transforms applied, payload)"""
+        xs = []
+        while isinstance(w, tuple) and w and w[0] == "apply":
+            xs.append(w[1])
+            w = w[2]
+        return tuple(xs), w
+    for r in rets:
+        parts = r[1]
+        if len(parts) < 3:
+            put("return order (intersection, wrench12, wrench21)", False, "contact_forces returns %d values" % len(parts))
+            continue
+        x12, h12 = split(parts[1])
+        x21, h21 = split(parts[2])
+        if not (isinstance(h12, tuple) and h12[0] == "hstack" and len(h12[1]) == 2 and isinstance(h21, tuple) and h21[0] == "hstack" and len(h21[1]) == 2):
+            put("returned wrenches", False, "the returned wrenches are not (transformed) stacks of a force and a torque: %s / %s" % (ws.show(parts[1], names)[:120], ws.show(parts[2], names)[:120]),
+                unknown=True)
+            continue
+        (f12, t12), (f21, t21) = h12[1], h21[1]
+        put("same transform for both wrenches", x12 == x21, "wrench12 is transformed by %s, wrench21 by %s" % ([ws.show(x, names)[:60] for x in x12], [ws.show(x, names)[:60] for x in x21]))
+        put("f12 = -f21", f12 == ws.neg(f21), "force parts `%s` and `%s` are not mutual negations" % (ws.show(f12, names)[:100], ws.show(f21, names)[:100]))
+        # which term is F?  the summed quantity of the force that is NOT negated
+        pos = f21 if not (isinstance(f21, tuple) and f21[0] == "neg") else f12
+        if not (isinstance(pos, tuple) and pos[0] == "sum0" and isinstance(pos[1], tuple) and pos[1][0] == "attr"):
+            put("f21 = sum of the contact forces", False, "the force part of wrench21 is `%s`, not the sum of the surface's per-triangle forces" % ws.show(f21, names)[:120], unknown=True)
+            continue
+        F = pos[1]
+        S = F[1]
+        names[S] = "surface"
+        put("f21 = sum of the contact forces", f21 == ("sum0", F),
+            "the third returned value must be the wrench ON body 1 (force +sum F): its force part is `%s` (the two wrenches are swapped somewhere along contact_forces / "
+            "accumulate_wrenches / _transform_wrenches)" % ws.show(f21, names)[:120])
+        coms = [x for x in _walk_terms(t21) if isinstance(x, tuple) and x[0] == "attr" and x[1] == S and x[2] != F[2]]
+        R = coms[0] if coms else ("attr", S, "contact_coms")
+        want21 = ("sum0", ws.mk_cross(("sub", R, ("attr", b1, "com")), F))
+        want12 = ws.mk_sum0(ws.mk_cross(("sub", R, ("attr", b2, "com")), ws.neg(F)))
+        put("torque21 about body 1's centre of mass with +F", t21 == want21,
+            "torque of wrench21 is `%s`; need %s" % (ws.show(t21, names)[:160], ws.show(want21, names)))
+        put("torque12 about body 2's centre of mass with -F", t12 == want12,
+            "torque of wrench12 is `%s`; need %s" % (ws.show(t12, names)[:160], ws.show(want12, names)))
+        put("return order (intersection, wrench12, wrench21)", parts[0] == ("attr", S, "intersection") or (isinstance(parts[0], tuple) and parts[0][0] == "attr" and parts[0][2] == "intersection"),
+            "the first returned value is `%s`, not the surface's intersection flag" % ws.show(parts[0], names)[:80])
+    for key, (st_, msg) in sorted(verdict.items()):
+        getattr(rep, st_)(rule, cf.key + "|" + key, cf.where, msg if st_ != "ok" else "holds on every return path")
+
+
+def _walk_terms(v):
+    yield v
+    if isinstance(v, tuple):
+        for x in v:
+            if isinstance(x, tuple):
+                yield from _walk_terms(x)
 
 
 def r_samepredicate(idx, rep, rule="R-SAMEPREDICATE"):
